@@ -715,6 +715,18 @@ func (e *SpecEnv) call(x *SX) Term {
 		return Term{a.S, sInt}
 	case "off":
 		return sliceOff(e.eval(args[0]))
+	case "emb":
+		// emb(p, F): the identity of the lock embedded as field F in the object p points to (see call.go: the
+		// same synthetic identity is handed to the contracts of the sync package)
+		a := e.eval(args[0])
+		if a.T.K != KRef || args[1].Op != "ident" {
+			e.bad("emb(pointer, FieldName)")
+		}
+		idx, ok := e.structField(a, args[1].Tok)
+		if !ok {
+			e.bad("emb: no field %s", args[1].Tok)
+		}
+		return Term{fmt.Sprintf("(- 0 (+ (* %s 64) %d))", a.S, idx+1), &Sort{K: KRef, Go: types.NewPointer(types.Typ[types.Int])}}
 	case "fresh":
 		// the object was allocated during the call
 		a := e.eval(args[0])
